@@ -9,6 +9,8 @@ import (
 	"runtime"
 	"runtime/debug"
 	"strings"
+	"sync"
+	"time"
 )
 
 // PointRec records one decision point of an execution.
@@ -45,7 +47,13 @@ type OpSig struct {
 
 // Independent reports whether two pending operations commute.
 func Independent(a, b OpSig) bool {
-	if a.Obj == nil || b.Obj == nil || a.Obj != b.Obj {
+	if a.Obj == nil || b.Obj == nil {
+		return true // purely thread-local step (thread start)
+	}
+	if a.Obj == Unknown || b.Obj == Unknown {
+		return false
+	}
+	if a.Obj != b.Obj {
 		return true
 	}
 	if a.Read && b.Read {
@@ -87,6 +95,7 @@ type Exec struct {
 	res     Result
 	aborted bool
 	trace   bool
+	live    sync.WaitGroup // thread goroutines that have not exited yet
 }
 
 var cur *Exec
@@ -116,6 +125,7 @@ func runExec(e *Exec, bodies []func()) Result {
 	e.res.Panics = make([]string, len(bodies))
 	cur = e
 	defer func() { cur = nil }()
+	e.live.Add(len(e.threads))
 	for _, t := range e.threads {
 		go e.threadMain(t)
 	}
@@ -200,6 +210,16 @@ func runExec(e *Exec, bodies []func()) Result {
 			break
 		}
 	}
+	// No goroutine of this execution may outlive it: a straggler unwinding its deferred
+	// calls (after an abandoned or deadlocked execution) would otherwise run shims while
+	// the next execution is current and corrupt it.
+	gone := make(chan struct{})
+	go func() { e.live.Wait(); close(gone) }()
+	select {
+	case <-gone:
+	case <-time.After(5 * time.Second):
+		e.res.Diverged = "threads of an aborted execution did not exit within 5 s"
+	}
 	for i, t := range e.threads {
 		e.res.Panics[i] = t.panicV
 	}
@@ -222,6 +242,7 @@ func (e *Exec) choose(kind string, alts int, costs []int, env bool, thread int) 
 }
 
 func (e *Exec) threadMain(t *thread) {
+	defer e.live.Done()
 	<-t.wake
 	if e.aborted {
 		return
@@ -259,7 +280,11 @@ func (e *Exec) abort() {
 // Point is called by the shims before an operation takes effect. can, when
 // non-nil, says whether the operation can proceed (e.g. the mutex is free); the
 // thread is not scheduled until it can.
-func Point(kind string, can func() bool) { PointOp(kind, OpSig{Obj: kind}, can) }
+func Point(kind string, can func() bool) { PointOp(kind, OpSig{Obj: Unknown}, can) }
+
+// Unknown is the object of an operation whose target the shim cannot name: it is
+// dependent on every other operation (never reduced).
+var Unknown = new(int)
 
 // PointOp is Point with the operation's signature (object, key, read-only) for the
 // partial-order reduction.
